@@ -421,6 +421,53 @@ class SortKey(Contract):
         return {"x": fresh("str", "x")}
 
 
+# P-09c  the key class _CaseInsensitiveString (what Deb822Dict files its keys under): equality and hash look at the lower-cased
+# text only, str() gives back the text as written.  The object is modelled by its two slots with the constructor's invariant
+# str_lower == str_orig.lower() as precondition (__new__ itself - str.__new__ on a subclass - is outside the encoded subset).
+class _KeyContract(Contract):
+    modular = False
+    requires = ("self.str_lower == self.str_orig.lower()",)
+
+    def setup(self, ex):
+        me = VObj("_CaseInsensitiveString", {"str_orig": fresh("str", "text"), "str_lower": fresh("str", "lowered")}, "self")
+        return {"self": me}
+
+
+class KeyEq(_KeyContract):
+    target = UT + ":_CaseInsensitiveString.__eq__"
+    ensures = ("result == (self.str_orig.lower() == other.lower())",)
+
+    def setup(self, ex):
+        d = _KeyContract.setup(self, ex)
+        d["other"] = fresh("str", "other")
+        return d
+
+
+class KeyNe(KeyEq):
+    target = UT + ":_CaseInsensitiveString.__ne__"
+    ensures = ("result == (self.str_orig.lower() != other.lower())",)
+
+
+class KeyHash(_KeyContract):
+    target = UT + ":_CaseInsensitiveString.__hash__"
+    ensures = ("result == hash(self.str_orig.lower())",)
+
+
+class KeyStr(_KeyContract):
+    target = UT + ":_CaseInsensitiveString.__str__"
+    ensures = ("result == self.str_orig",)
+
+
+class KeyLower(_KeyContract):
+    target = UT + ":_CaseInsensitiveString.lower"
+    ensures = ("result == self.str_orig.lower()",)
+
+
+def verify_key_class(ctx):
+    verify_contracts(ctx, World(SpecLib()), [KeyEq(), KeyNe(), KeyHash(), KeyStr(), KeyLower()], {})
+    ctx.solve()
+
+
 def verify_ordering_machinery(ctx):
     """LinkedList and OrderedSet of debian._util under contract (shared by C09 and C10, whose order_* for paragraphs
     without duplicated fields delegate to OrderedSet.order_*)"""
@@ -441,6 +488,7 @@ def run_deductive(ctx):
     w3.add_contract(add)
     verify_contracts(ctx, w3, [OSExtend()], {})
     verify_contracts(ctx, World(SpecLib()), [SortKey()], {})
+    verify_key_class(ctx)
     ctx.assumptions.append("the items of OrderedSet / LinkedList are modelled as opaque values with == and hashing only (mathematical "
                            "integers): the containers are generic in the item type")
     ctx.assumptions.append("weak references are dereferenced as the object itself: referents are assumed to be alive (nodes are "
@@ -472,13 +520,14 @@ def run(ctx):
     rounds = 4000 if ctx.tier == "quick" else 60000
     t = Tally(ctx, "B-09 histories on Deb822 mappings vs a reference list model",
               "seeded histories of 1-8 operations (set, delete, get, order_first/last/before/after, sort_fields with default and "
-              "custom key, copy, dump+re-parse) over keys {a,A,b,B,c,Xy,xY,XY} from 5 kinds of starting state; the mapping is "
+              "custom key, a key function that raises, copy - earlier copies must keep what they held -, dump+re-parse) over keys {a,A,b,B,c,Xy,xY,XY} from 5 kinds of starting state; the mapping is "
               "compared with the model after every step (keys, spelling, order, values, membership and lookup under every case "
               "variant); non-trivial = distinct (start kind, history)", "%d histories, <= 8 operations" % rounds)
     Deb822 = real.Deb822
     for _ in range(rounds):
         kind, d, model = start_state(real, rng)
         ops = [["start", kind, list(model)]]
+        frozen = []                        # copies taken during the history, with what they held when taken
         bystander = real.Deb822()          # another mapping alive at the same time: nothing done to `d` may show up here
         bystander["Zed"] = "1"
         bystander["a"] = "2"
@@ -487,8 +536,8 @@ def run(ctx):
             t.failed("initial state differs from the model", operations=ops, keys=list(d.keys()))
             break
         for step in range(rng.randint(1, 8)):
-            op = rng.choice(["set", "set", "del", "get", "first", "last", "before", "after", "sort", "sortkey", "sorttie", "copy", "cycle", "mapping-api",
-                             "mapping-api"])
+            op = rng.choice(["set", "set", "del", "get", "first", "last", "before", "after", "sort", "sortkey", "sorttie", "sortraise", "copy", "cycle",
+                             "mapping-api", "mapping-api"])
             k = rng.choice(KEYS)
             r = rng.choice(KEYS)
             before = snapshot(d)
@@ -590,6 +639,19 @@ def run(ctx):
                     ops.append(["sort_fields", "key=reverse-lower"])
                     model.sort(key=lambda e: [-ord(c) for c in e[0].lower()])
                     d.sort_fields(key=lambda s: [-ord(c) for c in s.lower()])
+                elif op == "sortraise" and model:
+                    # a key function that fails on the n-th name: the error reaches the caller, the order stays as it was
+                    fail_at = rng.randint(1, len(model))
+                    calls = {"n": 0}
+
+                    def kf_raise(nm, calls=calls, fail_at=fail_at):
+                        calls["n"] += 1
+                        if calls["n"] >= fail_at:
+                            raise KeyError("no rank for %s" % nm)
+                        return nm.lower()
+                    ops.append(["sort_fields", "key raises KeyError at call %d" % fail_at])
+                    exp_exc = KeyError
+                    d.sort_fields(key=kf_raise)
                 elif op == "sorttie":
                     # a key function with many ties: sorting is stable (same semantics as sorted())
                     ops.append(["sort_fields", "key=len"])
@@ -606,6 +668,8 @@ def run(ctx):
                     if "zz" in d:
                         t.failed("copy() is not independent of the original", operations=ops)
                         break
+                    # a copy taken now keeps what it holds, whatever happens to the original afterwards
+                    frozen.append((d.copy(), [tuple(e) for e in model], len(ops)))
                     if rng.random() < 0.5:
                         del c["zz"]
                         d = c
@@ -631,6 +695,19 @@ def run(ctx):
                 t.failed("mapping differs from the reference model", operations=ops, keys=list(d.keys()),
                          items=[list(x) for x in d.items()], model=[list(x) for x in model])
                 break
+            stale = None
+            for c_, m_, at_ in frozen:
+                try:
+                    ok_ = same(c_, [list(e) for e in m_]) and (not hasattr(c_, "dump") or isinstance(c_.dump(), str))
+                except Exception as ex:
+                    ok_ = False
+                if not ok_:
+                    stale = (m_, at_)
+                    break
+            if stale is not None:
+                t.failed("a copy taken earlier changed when the original was edited afterwards", operations=ops,
+                         copy_taken_after_operation=stale[1], copy_should_hold=[list(e) for e in stale[0]])
+                break
         if t.fail:
             break
         if not t.fail and [(k_, bystander[k_]) for k_ in bystander.keys()] != [("Zed", "1"), ("a", "2"), ("XY", "3")]:
@@ -648,8 +725,10 @@ def run(ctx):
                        "remove, extend, __contains__, __len__, order_first / order_last / order_before / order_after with _reorder inlined) "
                        "preserves 'table and list hold the same items, each once' and realises the reference list model: membership "
                        "unchanged by re-ordering, the item moved to the stated place, every other item keeping its relative order; "
-                       "KeyError / ValueError exactly in the stated cases with nothing modified. NOT proved: the iteration "
-                       "generators and the Deb822Dict layer on top (case-insensitive key objects, value "
+                       "KeyError / ValueError exactly in the stated cases with nothing modified. The key class the mappings file their names "
+                       "under (_CaseInsensitiveString): == / != compare the lower-cased texts, hash() is the hash of the lower-cased "
+                       "text, str() the text as written (its slots with the constructor's invariant as precondition). NOT proved: the iteration "
+                       "generators and the Deb822Dict layer on top (how it uses the key objects, value "
                        "dictionary, sort_fields, copy) - BOUNDED part: operation histories on real Deb822 mappings against a "
                        "reference list model.")
 
